@@ -57,6 +57,9 @@ CHECKS = {
     "C05": dict(cat="other", ref="DESIGN.md §4 C05 (part b only, see §11)", technique="CrossHair symbolic execution of Group.makegateway/allocate_id/_register with process creation replaced by a recording stub; symbolic live ids and requested id",
                 text="Only the second sentence of the statement (a failing makegateway leaves no process behind) is decided. terminate(timeout)'s promptness and kill behaviour are NOT covered by this check.",
                 note=E1_NOTE + "; part (a) of C05 (terminate returns promptly, group empty, every child exited) is outside: safe_terminate's closures are outside the E2 translator subset and remote process behaviour is the OS's"),
+    "C17": dict(cat="other", ref="DESIGN.md §4 C17", technique="CrossHair symbolic execution of the real rsync receiver co-simulated with the real sender methods over an in-memory file system; symbolic modes/mtimes/contents/prior target states/delete flag",
+                text="Bounded symbolic check of tree equality after send (kind, content, permission bits, file mtime), delete/no-delete semantics and the no-op re-sync, for single-file and small-tree skeletons with symbolic attributes and prior target states.",
+                note=E1_NOTE + "; the file system is an in-memory model, RSync.send()'s dispatch loop is replaced by an equivalent dispatcher over the same real methods; relative links/cwd, unusual names and real file systems are outside"),
 }
 
 NOT_APPLICABLE = [
